@@ -11,6 +11,8 @@ pub mod diff_props;
 pub use diff_props::*;
 pub mod c14;
 pub use c14::C14;
+pub mod engb_props;
+pub use engb_props::{C02, C07, C12};
 pub mod c06;
 pub use c06::C06;
 pub mod c09;
